@@ -114,3 +114,24 @@ void h_destroy(void)
   VERIF_CANARY;
 }
 #endif
+
+/* ------------------------------------------------------------ ConstrainedFDLayout::freeAssociatedObjects (libcola/colafd.cpp)
+ * C15: "have released everything they own" and no double free: each compound constraint in the layout's vector is released exactly once,
+ * however often and wherever the vector lists it, and the vector is emptied.  BOUNDED: up to 4 entries over 2 constraints. */
+#if defined(JOB_release)
+unsigned long w_release_all(void *a, void *b, unsigned n, unsigned pattern);
+static char objA[8], objB[8]; static int relA, relB, relOther;
+void w_release(void *p) { if (p == (void *)objA) relA++; else if (p == (void *)objB) relB++; else relOther++; }
+void h_release(void)
+{
+  unsigned n, pattern;
+  __CPROVER_assume(n <= 4 && pattern < 16);
+  relA = relB = relOther = 0;
+  unsigned long left = w_release_all(objA, objB, n, pattern);
+  _Bool hasA = 0, hasB = 0;
+  for (unsigned k = 0; k < 4; ++k) if (k < n) { if ((pattern >> k) & 1u) hasB = 1; else hasA = 1; }
+  __CPROVER_assert(relA == (hasA ? 1 : 0) && relB == (hasB ? 1 : 0) && relOther == 0, "SPEC every constraint in the vector is released exactly once, duplicates (adjacent or not) included");
+  __CPROVER_assert(left == 0, "SPEC the layout's constraint vector is emptied");
+  VERIF_CANARY;
+}
+#endif
